@@ -168,8 +168,44 @@ def check_noop_tree(ctx):
     ctx.expect(paths, ret=1)
 
 
+def check_two_tree(ctx):
+    install_exc(ctx.eng)
+    ctx.eng.max_strlen = 64
+    x = ctx.sym("x", 32)
+    paths = ctx.run("k_two_tree", [x])
+    kinds = set()
+    for q in paths:
+        if q.status != "ret":
+            ctx.fail(q, "ended %s %s" % (q.status, q.info))
+            continue
+        lg = q.user.get("log") or []
+        mark = [e for e in lg if e[0] == 24][0]
+        sbs = [e for e in lg if e[0] == 25][0]
+        A, B = conc(mark[1]), conc(mark[2])
+        SA, SB = conc(sbs[1]), conc(sbs[2])
+        kinds.add(bool([e for e in lg if e[0] == 63]))
+        seq = [("in" if e[0] == 50 else "out", conc(e[1]), conc(e[3])) for e in lg if e[0] in (50, 51)]
+        want = [("in", INVOKE, A), ("out", CALLBACK, A), ("in", INVOKE, B), ("out", CALLBACK, B), ("in", CALLBACK, B), ("out", INVOKE, B),
+                ("in", CALLBACK, A), ("out", CALLBACK, A), ("in", CALLBACK, A), ("out", INVOKE, A)]
+        bodies = [(conc(e[1]), conc(e[2])) for e in lg if e[0] == 20]
+        n = [e for e in lg if e[0] == 61]
+        ctx.require(q, z3.BoolVal(seq == want and bodies == [(50, SA), (8, SB), (1, SA)] and bool(n) and conc(n[0][1]) == 3 and conc(n[0][2]) == 2),
+                    "every notification carries the state of the sandbox whose boundary is crossed and every callback sees its own sandbox, also after a "
+                    "nested visit of another sandbox ended by an abort that the application caught; one timing record per crossing, filed with that sandbox "
+                    "(got %s, bodies %s, records %s)" % (seq, bodies, [conc(v) for v in n[0][1:3]] if n else None))
+    if kinds != {True, False}:
+        ctx.inconclusive.append("two-sandbox tree: did not see both the normal and the faulting nested visit")
+    ctx.only(paths, "ret")
+    ctx.expect(paths, ret=2)
+
+
 def jobs(tier, seed):
-    return [Job("C19_noop_tree", '#include "C19_noop.inc"\n', [dict(name="noop two-sandbox nested tree", fn=check_noop_tree, unwind=400)], native=False,
+    from specs.C13 import NOOP, DYLIB
+    two = [Job("C19_noop_two", NOOP + '#include "C19_two.inc"\n', [dict(name="noop two sandboxes, nested visit may abort", fn=check_two_tree, unwind=400)], native=False,
+               flags=["-D_GLIBCXX_EXTERN_TEMPLATE=0"]),
+           Job("C19_dylib_two", DYLIB + '#include "C19_two.inc"\n', [dict(name="dylib two sandboxes, nested visit may abort", fn=check_two_tree, unwind=400)], native=False,
+               flags=["-D_GLIBCXX_EXTERN_TEMPLATE=0"])]
+    return two + [Job("C19_noop_tree", '#include "C19_noop.inc"\n', [dict(name="noop two-sandbox nested tree", fn=check_noop_tree, unwind=400)], native=False,
                 flags=["-D_GLIBCXX_EXTERN_TEMPLATE=0"]),
             Job("C19_only_out", '#define C19_ONLY_OUT\n#include "C19_tree.inc"\n', [dict(name="only the OUT hook defined", fn=check_single_hook, kw=dict(which="out"), unwind=400)],
                 native=False, max_paths=100000, flags=["-D_GLIBCXX_EXTERN_TEMPLATE=0"]),
